@@ -1,9 +1,105 @@
 //! Host-side extensions of the worker: registered host functions (C20) and the
 //! `Step::Special` operations.
 
+use steel::gc::unsafe_erased_pointers::CustomReference;
+use steel::rvals::Custom;
 use steel::steel_vm::engine::Engine;
+use steel::steel_vm::register_fn::RegisterFn;
+use steel::custom_reference;
+use std::collections::{HashMap, HashSet};
 
-pub fn setup(_engine: &mut Engine) {}
+/// a registered host struct passed by value
+#[derive(Clone, Debug, PartialEq)]
+pub struct HostPoint {
+    x: i32,
+    y: i32,
+}
+impl Custom for HostPoint {}
+impl HostPoint {
+    fn new(x: i32, y: i32) -> Self {
+        HostPoint { x, y }
+    }
+    fn x(&self) -> i32 {
+        self.x
+    }
+    fn y(&self) -> i32 {
+        self.y
+    }
+    fn with_x(mut self, x: i32) -> Self {
+        self.x = x;
+        self
+    }
+}
+
+/// a host object lent to scripts by reference for the duration of one call
+pub struct Lent {
+    value: usize,
+}
+impl Lent {
+    fn get(&mut self) -> usize {
+        self.value
+    }
+    fn get_imm(&self) -> usize {
+        self.value
+    }
+    fn set(&mut self, v: usize) {
+        self.value = v;
+    }
+}
+impl CustomReference for Lent {}
+custom_reference!(Lent);
+
+fn host_result(x: isize) -> Result<isize, String> {
+    if x < 0 {
+        Err(format!("negative: {}", x))
+    } else {
+        Ok(x)
+    }
+}
+
+pub fn setup(engine: &mut Engine) {
+    // identity functions at every supported parameter type: the script sees what the host received
+    engine.register_fn("host-i16", |x: i16| -> isize { x as isize });
+    engine.register_fn("host-i32", |x: i32| -> isize { x as isize });
+    engine.register_fn("host-u8", |x: u8| -> isize { x as isize });
+    engine.register_fn("host-u16", |x: u16| -> isize { x as isize });
+    engine.register_fn("host-u32", |x: u32| -> isize { x as isize });
+    engine.register_fn("host-u64", |x: u64| -> String { x.to_string() });
+    engine.register_fn("host-usize", |x: usize| -> String { x.to_string() });
+    engine.register_fn("host-isize", |x: isize| -> isize { x });
+    engine.register_fn("host-f64", |x: f64| -> f64 { x });
+    engine.register_fn("host-bool", |x: bool| -> bool { x });
+    engine.register_fn("host-char", |x: char| -> char { x });
+    engine.register_fn("host-string", |x: String| -> String { x });
+    engine.register_fn("host-opt-int", |x: Option<isize>| -> Option<isize> { x });
+    engine.register_fn("host-result", host_result);
+    engine.register_fn("host-vec-int", |x: Vec<isize>| -> Vec<isize> { x });
+    engine.register_fn("host-vec-string", |x: Vec<String>| -> Vec<String> { x });
+    engine.register_fn("host-hashmap", |x: HashMap<String, isize>| -> HashMap<String, isize> { x });
+    engine.register_fn("host-hashset", |x: HashSet<isize>| -> HashSet<isize> { x });
+    engine.register_fn("host-add3", |a: isize, b: isize, c: isize| -> isize { a.wrapping_add(b).wrapping_add(c) });
+    engine.register_fn("host-concat", |a: String, n: usize, c: char| -> String { format!("{}{}{}", a, n, c) });
+    engine.register_fn("host-zero", || -> isize { 7 });
+    // values produced by the host
+    engine.register_fn("host-make-u64-max", || -> u64 { u64::MAX });
+    engine.register_fn("host-make-usize-max", || -> usize { usize::MAX });
+    engine.register_fn("host-make-i64-min", || -> i64 { i64::MIN });
+    engine.register_fn("host-make-f32", || -> f32 { 0.1f32 });
+    engine.register_fn("host-make-none", || -> Option<isize> { None });
+    engine.register_fn("host-make-some", || -> Option<isize> { Some(5) });
+    engine.register_fn("host-make-tuple", || -> (isize, String) { (5, "five".to_string()) });
+    // a registered struct
+    engine.register_type::<HostPoint>("HostPoint?");
+    engine.register_fn("HostPoint", HostPoint::new);
+    engine.register_fn("HostPoint-x", HostPoint::x);
+    engine.register_fn("HostPoint-y", HostPoint::y);
+    engine.register_fn("HostPoint-with-x", HostPoint::with_x);
+    // the lent reference
+    engine.register_value("*lent*", steel::SteelVal::Void);
+    engine.register_fn("lent-get", Lent::get);
+    engine.register_fn("lent-get-imm", Lent::get_imm);
+    engine.register_fn("lent-set!", Lent::set);
+}
 
 pub fn special(
     engine: &mut Engine,
@@ -48,6 +144,28 @@ pub fn special(
                     let sp = e.span();
                     Ok(vec![format!("err {} {} {}", sp.start, sp.end, e)])
                 }
+            }
+        }
+        // evaluate a script while a host object is lent by reference as the global *lent*;
+        // args: [script, initial value]; result: [canonical value of the script, value of the object afterwards]
+        "eval-with-ref" => {
+            let script = _args.first().cloned().unwrap_or_default();
+            let init: usize = _args.get(1).and_then(|v| v.parse().ok()).unwrap_or(10);
+            let mut obj = Lent { value: init };
+            // what Engine::run_with_reference does, but keeping the value of the last form
+            let r = engine.with_mut_reference::<Lent, Lent>(&mut obj).consume(move |engine, args| {
+                let mut args = args.into_iter();
+                engine.update_value("*lent*", args.next().unwrap());
+                let res = engine.compile_and_run_raw_program(std::borrow::Cow::Owned(script.clone()));
+                engine.update_value("*lent*", steel::SteelVal::Void);
+                res
+            });
+            match r {
+                Ok(vs) => {
+                    let last = vs.iter().rev().find(|v| !matches!(v, steel::SteelVal::Void)).cloned().unwrap_or(steel::SteelVal::Void);
+                    Ok(vec![steel::verif::canon(&last), obj.value.to_string()])
+                }
+                Err(e) => Err((format!("{:?}", e.kind()), format!("{}", e))),
             }
         }
         _ => Err(("Harness".into(), format!("unknown special {}", name))),
